@@ -1,5 +1,5 @@
 """C05 — timed and cancellable waits return for the stated reason, holding the lock."""
-from props.shared import mu_groups
+from props.shared import mu_groups, cv_groups
 
 ID = "C05"
 LEVEL = "proof"
@@ -10,11 +10,14 @@ EXPLANATION = (
     "0 exactly when the condition's last evaluation - made by this thread, holding the mutex, as the last step before returning - was "
     "true; a non-zero result is the outcome of this call's own timed / cancellable sleep, and is reported only after the thread "
     "dequeued itself under lock + spinlock. The timeout re-acquisition helper returns either holding the caller's mode with the waiter "
-    "dequeued, or holding nothing.")
+    "dequeued, or holding nothing. nsync_cv_wait_with_deadline_generic (nsync_mu in read or write mode, or a generic lock): returns "
+    "holding the lock in the mode held on entry; a non-zero result is the outcome of its own sleep and is reported only after it removed "
+    "itself from the cv queue under the cv spinlock with remove_count unchanged.")
 ASSUMPTIONS = ["nsync_sem_wait_with_cancel_ returns 0 / ETIMEDOUT / ECANCELED (its reasons: group pending); the condition is an arbitrary client function"]
-NOT_DECIDED = ["nsync_cv_wait_with_deadline (group pending)", "termination of the spin-acquire after a timeout (liveness)"]
+NOT_DECIDED = ["termination of the spin-acquire after a timeout (liveness)"]
 TRUSTED = []
 
 
 def groups(tier):
-    return mu_groups(tags=["C05", "C01"], which=["mu.wait_with_deadline", "mu.try_acquire_after_timeout", "mu.lock_slow"])
+    return mu_groups(tags=["C05", "C01"], which=["mu.wait_with_deadline", "mu.try_acquire_after_timeout", "mu.lock_slow"]) + \
+           cv_groups(tags=["C05", "C01", "C04"], which=["cv.wait_with_deadline_generic"])
